@@ -369,6 +369,37 @@ example : ((fixChoice tA').getAt [.child "ch", .child "via"]).map (·.d.kind) = 
     liftPath tA' [.child "ch", .child "via", .child "y"] = [.child "ch", .child "via", .child "via", .child "y"] := by
   decide
 
+/-! ### `FindModuleByNamespace` asked directly; near-twin namespaces -/
+
+/-- `InstantiatingModule()` is `FindModuleByNamespace` applied to the node's namespace. -/
+theorem instantiatingModule_is_findByNamespace (reg : Registry) (f : Forest) (loc : Loc) :
+    instantiatingModuleAt reg f loc = findByNamespace reg (namespaceAt reg f loc) :=
+  Lemmas.ConfigNs.instantiatingModuleAt_eq_findByNamespace reg f loc
+
+/-- **Namespaces are compared as strings.**  `FindModuleByNamespace(ns)` answers `n` exactly when
+some loaded module declares exactly `ns` and is called `n` and all loaded modules declaring
+exactly `ns` are called `n`; a spelling that no loaded module declares exactly — another letter
+case, a trailing slash or blank, another percent-encoding, a prefix of a declared namespace —
+finds nothing, whatever else is loaded and whatever was asked before (the function has no state). -/
+theorem findByNamespace_exact (reg : Registry) (ns : String) :
+    (∀ n, findByNamespace reg ns = some n ↔
+      (∃ m ∈ reg.distinctModules, nsOfMod m = ns ∧ m.name = n) ∧
+      (∀ m ∈ reg.distinctModules, nsOfMod m = ns → m.name = n)) ∧
+    ((∀ m ∈ reg.distinctModules, nsOfMod m ≠ ns) → findByNamespace reg ns = none) :=
+  ⟨fun n => Lemmas.ConfigNs.findByNamespace_eq_some_iff reg ns n,
+   Lemmas.ConfigNs.findByNamespace_undeclared reg ns⟩
+
+/-- two modules whose namespaces differ only in letter case, one whose namespace is a prefix -/
+private def regTwin : Registry :=
+  { mods := [⟨0, st "module" "va" [st "namespace" "urn:nt:Vendor", st "prefix" "va"]⟩,
+             ⟨1, st "module" "vb" [st "namespace" "urn:nt:vendor", st "prefix" "vb"]⟩,
+             ⟨2, st "module" "vc" [st "namespace" "urn:nt:vendor/", st "prefix" "vc"]⟩],
+    modules := [("va", 0), ("vb", 1), ("vc", 2)] }
+
+example : findByNamespace regTwin "urn:nt:Vendor" = some "va" ∧ findByNamespace regTwin "urn:nt:vendor" = some "vb" ∧
+    findByNamespace regTwin "urn:nt:vendor/" = some "vc" ∧ findByNamespace regTwin "URN:NT:VENDOR" = none ∧
+    findByNamespace regTwin "urn:nt:vendor " = none ∧ findByNamespace regTwin "urn:nt:vendo" = none := by decide
+
 /-! ### two revisions of one module (D40) -/
 
 private def regRev : Registry :=
